@@ -3,6 +3,7 @@ mod corefn;
 mod memfs;
 mod pathfn;
 mod sched;
+mod stdfs;
 mod util;
 
 use std::io::{BufRead, BufWriter, Write};
@@ -33,6 +34,17 @@ fn main() {
                 };
                 writeln!(out, "{}", res.unwrap_or_else(|| "bad-op".to_string())).unwrap();
             }
+        },
+        "stdfs" => {
+            // the environment (HOME) is fixed for sandbox sessions
+            for (k, _) in std::env::vars_os() {
+                std::env::remove_var(k);
+            }
+            std::env::set_var("HOME", "/h");
+            drop(out);
+            let mut o = std::io::LineWriter::new(std::io::stdout());
+            stdfs::run(stdin.lock(), &mut o);
+            return;
         },
         "sched" => {
             for (k, _) in std::env::vars_os() {
